@@ -8,7 +8,7 @@ ADAPTERS = {'GenericConstraints::from_config'}
 
 def backend_wiring(ctx, rep, rule, only_fields=None):
     """Each backend struct field is initialised from config.<own language>.<same name>; every params field is consumed."""
-    f = ctx.fn('language', file='cli/src/main.rs')
+    f = ctx.fnx('language', file='cli/src/main.rs')
     lits = [s for s in f['structs'] if s['path'].split('::')[-1] in SECTION]
     rep.floor(rule, 'backend constructions in language()', len(lits), 6)
     cfg_param = next((p['name'] for p in f['params'] if p.get('ty') == 'Config'), 'config')
